@@ -45,7 +45,7 @@ def run_job(job):
             shutil.rmtree(tmpd, ignore_errors=True)
     out = monitor.to_monitor(job['id'], cfg, trace, caller_pid=os.getpid(), ctxkeys=ctxkeys_for(cfg), tnames=rig.tnames)
     out['meta'] = {'skipped': rig.skipped, 'defaulted': rig.defaulted, 'lines': rig.line_count, 'sites': rig.line_sites,
-                   'ints': rig.ints_done, 'events': len(trace),
+                   'ints': rig.ints_done, 'events': len(trace), 'setup_failed': rig.setup_failed,
                    'ctor': sorted(set(rig.process_ctor_methods)), 'ctxm': sorted(set(m or '' for m in rig.ctx_methods))}
     if job.get('keep_raw'):
         out['raw'] = trace
